@@ -34,7 +34,7 @@ ASSUMPTIONS = ["ordered-metadata journaling file system: directory operations su
 REQUIRED_PROBES = ["crash_runs", "failed_op_runs", "loaded_old", "loaded_new"]
 
 PRIORS = ["none", "good", "good+bak", "good+tmp", "good+bak+tmp"]
-KINDS = ["crash_before", "crash_after", "EIO", "ENOSPC", "EACCES"]
+KINDS = ["crash_before", "crash_after", "EIO", "ENOSPC", "EACCES", "ETIMEDOUT"]
 RESOLUTIONS = ["strict", "power-kept", "power-dropped", "power-prefix", "power-zerofill"]
 
 
@@ -260,7 +260,7 @@ def run(case):
             opname = oplog[n][1]
             occurrence = sum(1 for o in oplog[: n + 1] if o[1] == opname)
             kind = cfg["kind"]
-            if kind in ("EIO", "ENOSPC", "EACCES") and opname not in simfs.FAULT_OPS:
+            if kind in ("EIO", "ENOSPC", "EACCES", "ETIMEDOUT") and opname not in simfs.FAULT_OPS:
                 kind = "crash_before"
             fs.arm({n: kind})
             status, exc = dw.save(gw_a)
